@@ -76,7 +76,7 @@ def cheap_settings(h, rng):
     if name == "fshp":
         kw["variant"] = rng.choice([0, 1, 2, 3])
     if name == "scrypt":
-        kw.update(block_size=rng.choice([1, 2]), parallelism=1, rounds=rng.choice([1, 2]))
+        kw.update(block_size=rng.choice([1, 2]), parallelism=1, rounds=rng.choice([1, 2]), salt_size=rng.choice([1, 8, 16, 32]))   # the $7$ variant caps the salt well below max_salt_size
     if name == "bcrypt_sha256":
         kw.pop("ident", None)
     return kw
@@ -98,6 +98,8 @@ def eff(name: str, secret, kw=None):
     """the part of the secret the format documents as significant (None = secret not admissible for the format)"""
     base = BASE.get(name, name)
     b = _b(secret)
+    if base == "ldap_plaintext" and not b:
+        return None          # an empty string is not a valid ldap_plaintext hash: the scheme cannot represent an empty password
     if base in ("des_crypt",):
         return bytes(c & 0x7F for c in b[:8])
     if base == "crypt16":
